@@ -260,6 +260,10 @@ func runC17(c *Ctx) {
 	sort.Strings(unmatched)
 	r.Extra["decode_guards_without_affine_match"] = unmatched
 
+	// record arrays are read relative to the loop counter
+	r.Rule("record-loop", "loops over record arrays read every field relative to the loop counter", 10)
+	runRecordLoops(c, []string{"layer_dns.go", "handlers/dns_naming/nbns.go", "handlers/dns_naming/mdns.go", "handlers/dns_naming/dns.go", "handlers/dns_naming/llmnr.go", "handlers/dns_naming/ssdp.go"}, "record-loop")
+
 	// decoded names live in the caller's scratch buffer: they are consumed before the scratch is decoded into again
 	r.Rule("scratch-live", "a decoded name is not used after its scratch buffer has been handed to another decode", 3)
 	sa := newScratchAnalysis(c)
